@@ -532,7 +532,7 @@ func TestCheck(t *testing.T) {
 	}
 	// per-goroutine ranges that are exact multiples of 16 MiB
 	for hi, lg := range [][2]int{{1 << 24, 1}, {1 << 24, 2}, {1 << 25, 2}, {1 << 25, 1}, {3 << 24, 3}} {
-		if !cfg.Mine(7500+hi) || raceEnabled || (hi > 1 && !cfg.Thorough()) {
+		if !cfg.Mine(7500+2*hi) || raceEnabled || (hi > 1 && !cfg.Thorough()) {
 			continue
 		}
 		rec.Class("per-goroutine-range-multiple-of-16MiB")
